@@ -774,6 +774,41 @@ func (c *EvalCtx) evalCall(e *Expr) CV {
 			}
 		}
 		return CV{VT{B.False()}, nil}
+	case "sameOrNewArray":
+		// sameOrNewArray(e), e slice-valued: the array behind e is (a part of) the array e had on entry, or
+		// was allocated during this call. Proved at the returns of a verified function; at a call site it
+		// is assumed and the new array (when it is not the old one) becomes a region allocated in the
+		// caller, apart from everything the caller knew. Use it as a top-level conjunct of an ensures clause.
+		if c.old == nil {
+			evalFail("sameOrNewArray needs an entry state")
+		}
+		nw, ok1 := arg(0).V.(VSlice)
+		sub := *c
+		sub.st = c.old
+		sub.inOld = true
+		od, ok2 := sub.eval(e.Args[0]).V.(VSlice)
+		if !ok1 || !ok2 {
+			evalFail("sameOrNewArray needs a slice")
+		}
+		kept := B.And(B.Le(od.Ptr, nw.Ptr), B.Le(B.Add(nw.Ptr, nw.Cap), B.Add(od.Ptr, od.Cap)))
+		if c.declareRegions || c.assumeMode {
+			for _, r := range vc.regions {
+				ext := r.Size
+				if r.Own != nil {
+					ext = r.Own
+				}
+				vc.fact(B.Or(kept, B.Le(B.Add(nw.Ptr, nw.Cap), r.Base), B.Le(B.Add(r.Base, ext), nw.Ptr), B.Le(ext, B.Int(0))))
+			}
+			vc.regions = append(vc.regions, Region{Base: nw.Ptr, Size: B.Ite(kept, B.Int(0), nw.Cap), What: "alloc", Writable: true})
+			return CV{VT{B.True()}, nil}
+		}
+		alts := []*Term{kept}
+		for _, r := range vc.regions {
+			if r.What == "alloc" {
+				alts = append(alts, B.And(B.Le(r.Base, nw.Ptr), B.Le(B.Add(nw.Ptr, nw.Cap), B.Add(r.Base, r.Size))))
+			}
+		}
+		return CV{VT{B.Or(alts...)}, nil}
 	case "bufLen", "bufAt":
 		// abstract bytes.Buffer model: bufLen(b), bufAt(b, i)
 		b0 := c.evalInt(e.Args[0])
